@@ -383,10 +383,12 @@ impl<F: Fn(pipe::SimplexDirection, usize) + Send + Sync> DuplexPipe<F> {
                 meta.source,
                 meta.destination
             );
+            // `udp_connections` is keyed client->peer, while `on_connection_closed`
+            // takes the peer->client orientation (as the reply path passes it)
             self.right_pipe
                 .shared
                 .forwarder_shared
-                .on_connection_closed(&meta);
+                .on_connection_closed(&meta.reversed());
             log_id!(debug, id, "Connection expired: {:?}", meta);
         }
     }
